@@ -3,12 +3,14 @@ package node
 import (
 	"context"
 	"database/sql"
+	"database/sql/driver"
 	"fmt"
 	"math/big"
 	"sort"
 	"time"
 
 	"github.com/Factom-Asset-Tokens/factom"
+	sqlite3 "github.com/mattn/go-sqlite3"
 	"github.com/pegnet/pegnet/modules/grader"
 	"github.com/pegnet/pegnet/modules/graderStake"
 	"github.com/pegnet/pegnet/modules/opr"
@@ -332,15 +334,39 @@ func (d *Pegnetd) NullifyBurnAddress(ctx context.Context, tx *sql.Tx, height uin
 				fLog.WithFields(log.Fields{
 					"error": err,
 				}).Info("zeroing burn | coinbase tx failed")
-				// Not reported to the caller, which now fails the block on an error:
-				// recording can fail for good (the mock txid may collide with the
-				// txid of a staking payout), and that has never stopped the sync.
+				// Recording fails for good for a non-zero balance (the negated
+				// amount is not a value database/sql accepts) and when the mock
+				// txid collides with the txid of a staking payout. That has never
+				// stopped the sync and ends the zeroing here, as it always did.
+				// A failure of the storage itself is different: it says nothing
+				// about the data, and the block must fail and be retried instead
+				// of being committed short.
+				if isTransientStorageError(err) {
+					return err
+				}
 				return nil
 			}
 		}
 	}
 
 	return nil
+}
+
+// isTransientStorageError reports whether err comes from the storage layer
+// failing (I/O error, full disk, locked or busy database, out of memory,
+// interrupted or cancelled call) rather than from the statement or its data.
+func isTransientStorageError(err error) bool {
+	if err == context.Canceled || err == context.DeadlineExceeded || err == driver.ErrBadConn {
+		return true
+	}
+	if sqliteErr, ok := err.(sqlite3.Error); ok {
+		switch sqliteErr.Code {
+		case sqlite3.ErrIoErr, sqlite3.ErrFull, sqlite3.ErrBusy, sqlite3.ErrLocked,
+			sqlite3.ErrNomem, sqlite3.ErrInterrupt, sqlite3.ErrCantOpen, sqlite3.ErrProtocol:
+			return true
+		}
+	}
+	return false
 }
 
 // If SyncBlock returns no error, than that height was synced and saved. If any part of the sync fails,
